@@ -6,7 +6,7 @@ integer / zero short-cut (x, 1); (3) the assertions inside gcd_special cannot fi
 (4) the denominator is positive; (5) gcd_special(x, e) = gcd(|x|, 10^e): binary-gcd loop proved with a supplied
 loop invariant over the textbook gcd identities (L1, L2 - trusted).
 """
-from ..absint import Interp, Opts, Agg, Int, K, State, PanicExc, Stop, ZERO, NONZERO, POS, Infeasible
+from ..absint import Interp, Opts, Agg, Int, K, State, PanicExc, Stop, ZERO, NONZERO, POS, Infeasible, ByRef, Opaque
 from ..harness import (dec_coeff, M, SCALES_ALL, dec_val, poly_eq, show_outcome, show_poly, get_db, run_jobs)
 from ..db import span_str
 from ..poly import padd, pscale, pconst, pmul, patom, pfreeze, Atoms
@@ -86,7 +86,33 @@ def run_job(job):
                         bad.append('ratio is not (x / g, 10^p / g) for g = gcd_special(x, p): (%s, %s)' % (show_poly(s, n.p), show_poly(s, dd.p)))
                     if not s.sign(dd.p) <= POS:
                         bad.append('denominator not provably positive')
-    return [('B-RATIO', 'p=%d;x=%s' % (p, xcls), not bad, '; '.join(bad[:3]) or 'as_integer_ratio = (numerator, denominator) = (x/g, 10^p/g)', None)]
+    obs = [('B-RATIO', 'p=%d;x=%s' % (p, xcls), not bad, '; '.join(bad[:3]) or 'as_integer_ratio = (numerator, denominator) = (x/g, 10^p/g)', None)]
+    # Hash::hash(&d, state) feeds the hasher exactly what hashing the pair as_integer_ratio() feeds it: the numerator, then the denominator
+    hbad = []
+    fnh = db.find_impl_fn('core::hash::Hash', ['Decimal'], 'hash')
+    if fnh is None:
+        hbad.append('impl Hash for Decimal not found')
+    elif 'as_integer_ratio' not in res:
+        hbad.append('as_integer_ratio has no single returning path in this cell')
+    else:
+        st = State(atoms)
+        d = dec_val(st, 'x', p, lo, hi)
+        I.call_root(st, fnh, [ByRef(d), ByRef(Opaque('H', 'hasher'))])
+        houts = I.explore(st)
+        if len(houts) != 1 or houts[0].kind != 'ret':
+            hbad.append('hash: %s' % [show_outcome(o)[:200] for o in houts])
+        else:
+            hs = houts[0].state
+            fed = list(hs.ghost.get('hashed', ()))
+            rv = res['as_integer_ratio'].value
+            want = [rv.fields[0], rv.fields[1]] if isinstance(rv, Agg) and len(rv.fields) == 2 else None
+            if want is None:
+                hbad.append('as_integer_ratio does not return a pair')
+            elif len(fed) != 2 or [f[0] for f in fed] != [w.ty for w in want] or not all(poly_eq(hs, dict(f[1]), w.p) for f, w in zip(fed, want)):
+                hbad.append('the hasher is fed %s, hashing the pair as_integer_ratio() feeds it (%s, %s)'
+                            % ([(f[0], show_poly(hs, dict(f[1]))[:80]) for f in fed], show_poly(hs, want[0].p)[:80], show_poly(hs, want[1].p)[:80]))
+    obs.append(('B-HASH', 'p=%d;x=%s' % (p, xcls), not hbad, '; '.join(hbad[:2]) or 'hash feeds (numerator, denominator) of the reduced ratio', span_str(fnh.get('span')) if (hbad and fnh) else None))
+    return obs
 
 
 # ----------------------------------------------------------------------------- the gcd loop (binary gcd of two odd numbers)
@@ -294,21 +320,7 @@ def run(rep, tier):
     db = get_db()
     rep.tree_hash = db.tree_hash
     rep.configs = ['default']
-    # (1) hash forwards to the ratio pair
-    fn = db.find_impl_fn('core::hash::Hash', ['Decimal'], 'hash')
-    ratio = db.find_impl_fn(T_RATIO, ['Decimal'], 'as_integer_ratio')
-    ok = False
-    detail = 'impl Hash for Decimal / AsIntegerRatio not found'
-    if fn is not None and ratio is not None:
-        sh, why = fwd.shape_multi(fn)
-        detail = '%s (%s)' % (sh, why)
-        if sh and len(sh) == 2:
-            a, b = sh
-            ok = (a['callee'] == ratio['id'] and a['args'] == [('deref', ('param', 1))]
-                  and (b['path'] or '').startswith('core::hash::impls::<impl core::hash::Hash for (T, B)>::hash')
-                  and len(b['args']) == 2 and b['args'][0] == ('ref', ('call', ratio['id'], a['path'], a['args'])) and b['args'][1] == ('param', 2))
-    rep.ob('R-FWD-HASH', 'hash-is-hash-of-ratio', ok, 'Hash::hash(&self, state) must be exactly self.as_integer_ratio().hash(state); found %s' % detail,
-           site=span_str(fn.get('span')) if fn else None)
+    # (1) hash feeds the hasher the reduced ratio pair: B-HASH obligations of the ratio cells below
     # Hash must not be derived / implemented for anything else that would bypass it: PartialEq and Hash agree only through the ratio
     jobs = [(p, xc) for p in SCALES_ALL for xc in ('neg', 'zero', 'pos')]
     jobs += [('gcd', e, xc) for e in range(1, 19) for xc in ('neg', 'pos')]
@@ -316,6 +328,7 @@ def run(rep, tier):
         jobs += [('gcd', e, xc) for e in range(19, 39) for xc in ('neg', 'pos')]
     run_jobs(rep, __name__, jobs)
     rep.floor('B-RATIO', 57)
+    rep.floor('B-HASH', 57)
     rep.floor('G-GCD-LOOP', 36)
     # who calls gcd_special: only the three ratio methods
     callers = set()
